@@ -53,14 +53,22 @@ pub fn fixture_worlds() -> Vec<World> {
         ("norewrite", vec![IN_DEFAULT, IN_PROLONGED, IN_YOMIGANA], vec![OOV_MECAB, OOV_SIMPLE], vec![]),
     ];
     let mut out = Vec::new();
+    // a user dictionary whose words are written in kana but split into the system dictionary's kanji units:
+    // the unit key lengths do not add up to the word's length (the last unit must inherit the parent's end)
+    let kana_user = "とうきょうと,6,8,-3000,とうきょうと,名詞,固有名詞,地名,一般,*,*,トウキョウト,東京都,*,C,5/9,5/9,*,*\nきょうとふ,6,6,-3000,きょうとふ,名詞,固有名詞,地名,一般,*,*,キョウトフ,京都府,*,B,*,3/9,*,*\n";
     for (name, i, o, p) in stacks {
-        let (sys, users) = dicts::test_dict_bytes(true);
+        let (sys, mut users) = dicts::test_dict_bytes(true);
+        let mut extra_lex: Vec<Value> = Vec::new();
+        if name == "full" || name == "plain" || name == "norewrite" {
+            users.push(dicts::build_user(&sys, kana_user.as_bytes()).expect("kana user dictionary"));
+            extra_lex.push(json!([[6, 8, -3000], [6, 6, -3000]]));
+        }
         let cfg = cfg_json(&i, &o, &p);
         let dict = dicts::load(&cfg, &res, sys, users).unwrap_or_else(|e| panic!("world {}: {:?}", name, e));
         out.push(World {
             name: name.to_string(),
             dict: Rc::new(dict),
-            meta: json!({"n_input_plugins": i.len(), "n_oov": o.len(), "n_path_rewrite": p.len(), "has_fallback_oov": true}),
+            meta: json!({"n_input_plugins": i.len(), "n_oov": o.len(), "n_path_rewrite": p.len(), "has_fallback_oov": true, "extra_lex": extra_lex}),
         });
     }
     out
